@@ -185,6 +185,12 @@ def _subclasscheck(t1, t2):
     if t2 in UnionTypes:
         return isinstance(t1, t2)
 
+    if isinstance(t2, UnionTypes):
+        # A | B, typing.Union[A, B] that were not normalized
+        return any(subclasscheck(t1, a) for a in get_args(t2))
+    if isinstance(t1, UnionTypes):
+        return all(subclasscheck(a, t2) for a in get_args(t1))
+
     o1 = get_origin(t1)
     o2 = get_origin(t2)
 
